@@ -188,6 +188,8 @@ def run(res, tier, rng, table_diffs=()):
             op = p.rsplit(" ", 2)[1]
             exp = "ok b:ja" if op == "!=" else "ok b:nee"
         cases.append(("same-object", p, exp))
+    for p in _enum.cross_type_fused_programs():
+        cases.append(("cross-fused", p, None))
     reqs = ["eval 100000 " + hx(c[1]) for c in cases]
     ia = core.impl(reqs)
     ma = core.model(reqs)
